@@ -288,6 +288,17 @@ func (e *Environment) makeRef(name string) (*Reference, bool) {
 	return nil, false
 }
 
+// BoundToFunction tells if the name currently resolves to a function, without creating a reference
+// nor counting a cache miss like Get() does.
+func (e *Environment) BoundToFunction(name string) bool {
+	for ; e != nil; e = e.outer {
+		if obj, ok := e.store[name]; ok {
+			return Value(obj).Type() == FUNC
+		}
+	}
+	return false
+}
+
 func (e *Environment) Get(name string) (Object, bool) {
 	if name == "info" {
 		e.TriggerNoCache()
